@@ -281,7 +281,10 @@ class Run:
         self.evals += 1
         self.hashes.add(h64("bad", label, len(before), stream[:48], len(stream), tuple(cuts), mode))
         self.cov["bad_frame_cases"][label] = self.cov["bad_frame_cases"].get(label, 0) + 1
-        self.fresh()
+        c0 = rig.conn
+        if not (c0 is not None and c0._read_thread.is_alive() and len(c0._read_buffer) == 0
+                and c0.state == rig.peer_mod.PEER_READY and rig.h.workers_idle()):
+            self.fresh()   # the previous case left residue, closed the connection or ended its reader
         rig.delivered = []
         replay = {"op": "bad", "stream": stream.hex() if len(stream) < 6000 else None, "cuts": list(cuts),
                   "mode": mode, "label": label, "n_before": len(before)}
@@ -393,6 +396,10 @@ def bad_frames(frame: bytes, nxt: bytes, rng):
     body = R.enc_avp(263, b"sess", 0, 0x40)[:5] + (1 << 20).to_bytes(3, "big") + b"abcdefgh"
     out.append(("undecodable-body", R.enc_msg(272, app=4, flags=0x80, hbh=1, e2e=1, avps=body)))
     out.append(("undecodable-body", R.enc_msg(280, flags=0x80, hbh=2, e2e=2, avps=b"\x00\x00\x01\x07")))
+    # larger than the frames behind it (a reader that remembers "bytes wanted" must forget it again)
+    for pad in (180, 1000):
+        good = R.enc_avp(25, rng.randbytes(pad), 0, 0x40)
+        out.append(("undecodable-body", R.enc_msg(272, app=4, flags=0x80, hbh=3, e2e=3, avps=good + body)))
     for ln in [0] + list(range(1, 20)) + [real - 4, real + 4, real + len(nxt), (1 << 24) - 1]:
         if ln == real or ln < 0:
             continue
@@ -429,11 +436,23 @@ def run_bad(run: Run, spec, rng):
                         cuts = tuple(sorted(set(rng.randrange(1, L) for _ in range(rng.randrange(1, 5)))))
                     run.bad_case(before, bad, after, label, cuts, rng.choice(["step", "burst"]))
                     if label == "undecodable-body" and after and rep == 0:
-                        # every cut position in and just behind the skipped frame (exhaustive)
-                        end = sum(map(len, before)) + len(bad)
-                        for k in range(end - len(bad) + 1, min(end + 24, L)):
+                        # every cut position in and just behind the skipped frame (exhaustive 1-cuts), and
+                        # 2-cuts (one inside the bad frame, one around its end) with the frames behind it
+                        # arriving one per read
+                        start = sum(map(len, before))
+                        end = start + len(bad)
+                        for k in range(start + 1, min(end + 24, L)):
                             run.bad_case(before, bad, after, label, (k,), "step")
                             run.cov["cuts_around_skipped_frame"] = run.cov.get("cuts_around_skipped_frame", 0) + 1
+                        tail = list(itertools.accumulate([end] + [len(f) for f in after]))[1:-1]
+                        inner = sorted({start + 1, start + 19, start + 20, start + 21, (start + end) // 2, end - 1}
+                                       & set(range(start + 1, end)))
+                        for k1 in inner:
+                            for k2 in range(max(k1 + 1, end - 2), min(end + 22, L)):
+                                cuts = tuple(sorted({k1, k2} | {t for t in tail if t > k2}))
+                                run.bad_case(before, bad, after, label, cuts, "step")
+                                run.cov["two_cuts_around_skipped_frame"] = \
+                                    run.cov.get("two_cuts_around_skipped_frame", 0) + 1
     if len(run.samples) < 3:
         run.samples.append({"bad_frame": "len=0 inserted after 2 good frames", "then": "1 good frame"})
 
